@@ -100,7 +100,7 @@ def fakeWorld : World where
   encode n v := if n == hexaName then hexEncode v else if n == revName then v.reverse
     else if n == protoName then protoEncode v else v
   stable n := n == rawName || n == hexaName || n == protoName
-  binary n := n == rawName || n == protoName
+  binary n := n == protoName
   knownCompression n := n == zName || n == yName || n == [0x67, 0x7A, 0x69, 0x70]   -- gzip is always registered
   compress n b := if n == zName then rleCompress 0x5A b else if n == yName then rleCompress 0x59 b else b
   decompress n b := if n == zName then rleDecompress 0x5A b else if n == yName then rleDecompress 0x59 b else none
